@@ -174,13 +174,15 @@ CLAIMED = {
         "That DELETE refuses the bare form at run time and how numbers above 65529 are rejected by the scanner are differential only.",
         "Coq refinement to an ordered map + reachable-state invariant + history-based differential check with a reference map"),
     "C16": entry(
-        "? and ' scan to the PRINT and REM tokens; the operator and GO TO / GO SUB merges hold for any amount of blank space (Props/C16.v).",
+        "? and ' scan to the PRINT and REM tokens; the operator and GO TO / GO SUB merges hold for any amount of blank space; the whole scanner -- line-number "
+        "prefix, numbers with their exponent letters, & literals, words, punctuation, post passes -- returns the same line number and tokens for any two "
+        "texts that differ only in letter case, provided no string literal or remark is among the tokens (Props/C16.v, Proofs/CaseFold.v, CaseLex.v).",
         "every line of generated programs rendered in random spellings (case, ?, ', GO TO, GO SUB, dropped LET, =< =>, blanks inside relational operators, "
         "blanks added or removed at boundaries, keywords glued to numbers, words run together where the leftmost-reserved-word rule gives the same words "
         "back); variants must give the same AST, the same listing modulo LET / remark marker / amount of blank space, and whole programs the same transcript.",
-        "PARTIAL: case- and spacing-independence of the scanner as a whole is decided by the monitor on the crate, not proved. One known finding is listed "
+        "PARTIAL: spacing-independence (blanks added, removed, words run together) of the scanner as a whole is decided by the monitor on the crate, not proved. One known finding is listed "
         "(GO SUB glued to digits). Listing equality is modulo the amount of blank space because the listing deliberately keeps the user's blanks.",
-        "Coq lemmas on token aliases + spelling-variant relational check on the implementation"),
+        "Coq theorems on token aliases and on case-independence of the whole scanner + spelling-variant relational check on the implementation"),
     "C17": entry(
         "a reply is cut exactly at the commas outside double quotes: joining the fields with commas gives the reply back, for every reply; n well-formed "
         "fields joined by commas split into exactly those n fields; a reply without commas and quotes is one field; and the protocol, for every machine "
